@@ -1,5 +1,4 @@
 import Tw.Model.NetRef
-import Mathlib.Data.List.Nodup
 
 /-! Lemmas about the peer table as a vector (`lookup`, `update`, `remove` = swap-remove, `slot`),
 all by membership: under `PInv` an entry is determined by its key and by its address. -/
@@ -73,13 +72,28 @@ theorem pidFromAddr_eq (ps : Peers) (a : Nat) : pidFromAddr ps a = (slot ps a).m
   | nil => rfl
   | cons e es ih => simp only [pidFromAddr, slot]; split <;> simp_all
 
+/-- a list whose image under `f` has no duplicates: `f` is injective on it -/
+theorem inj_of_nodup_map {α β : Type} {f : α → β} {l : List α} (hn : (l.map f).Nodup) {x y : α}
+    (hx : x ∈ l) (hy : y ∈ l) (h : f x = f y) : x = y := by
+  induction l with
+  | nil => simp at hx
+  | cons z zs ih =>
+    simp only [List.map_cons, List.nodup_cons] at hn
+    rcases List.mem_cons.1 hx with hxz | hx
+    · rcases List.mem_cons.1 hy with hyz | hy
+      · rw [hxz, hyz]
+      · exact absurd (List.mem_map.2 ⟨y, hy, by rw [← h, hxz]⟩) hn.1
+    · rcases List.mem_cons.1 hy with hyz | hy
+      · exact absurd (List.mem_map.2 ⟨x, hx, by rw [h, hyz]⟩) hn.1
+      · exact ih hn.2 hx hy
+
 /-- two entries with the same key are the same entry -/
 theorem pid_inj {ps : Peers} (hn : (pids ps).Nodup) {x y : Nat × Peer} (hx : x ∈ ps) (hy : y ∈ ps)
-    (h : x.1 = y.1) : x = y := List.inj_on_of_nodup_map hn hx hy h
+    (h : x.1 = y.1) : x = y := inj_of_nodup_map hn hx hy h
 
 /-- two entries with the same address are the same entry -/
 theorem addr_inj {ps : Peers} (hn : (addrs ps).Nodup) {x y : Nat × Peer} (hx : x ∈ ps) (hy : y ∈ ps)
-    (h : x.2.addr = y.2.addr) : x = y := List.inj_on_of_nodup_map hn hx hy h
+    (h : x.2.addr = y.2.addr) : x = y := inj_of_nodup_map hn hx hy h
 
 /-- under the invariant, the peer found by address is the peer found by its id -/
 theorem slot_lookup {ps : Peers} (hi : PInv ps) {a pid : Nat} {p : Peer} (h : slot ps a = some (pid, p)) :
